@@ -19,3 +19,37 @@ type Zone struct {
 }
 
 func (Zone) IsEntity() {}
+
+// Inner scopes that reuse the names of the bound package-level types: function-local types,
+// vars and consts, parameter and result names, method names and struct field names.
+func DecodeLegacy(Warehouse string) (Zone int) {
+	type Warehouse2 = struct{ Old string }
+	{
+		type Warehouse struct{ LegacyID string }
+		type Zone struct{ LegacyCode string }
+		w := Warehouse{LegacyID: "w"}
+		z := Zone{LegacyCode: "z"}
+		total := len(w.LegacyID) + len(z.LegacyCode)
+		_ = total
+	}
+	const Region = "r"
+	var Capacity = len(Region)
+	return Capacity + len(Warehouse)
+}
+
+type Shelf struct {
+	Warehouse string
+	Zone      int
+}
+
+func (s Shelf) Warehouse2(Zone string) string { return s.Warehouse + Zone }
+
+var (
+	DefaultRegion = "north"
+	DefaultLoad   = 0
+)
+
+const (
+	MaxZones     = 8
+	MaxWarehouse = 64
+)
